@@ -176,7 +176,13 @@ def run(prop, tier):
     k = 0
     for mode in ("one", "two", "none"):
         nex = 1 if mode != "one" else rng.choice([0, 1])
-        scn = L.make_container(rng, 900 + k, n_entries=4, n_extras=nex, comp=rng.choice(["none", "zstd", "lz4"]), concat=mode)
+        # (value stores larger than the creator's 8 KiB write buffer - a flush and a direct write inside a store - and few contents:
+        #  strace counts the k-th call per thread, the writes of the cluster-writer thread must not shadow the main thread's)
+        scn = L.make_container(rng, 900 + k, n_entries=10, n_extras=nex, comp=rng.choice(["none", "zstd", "lz4"]), concat=mode, sizes=[0, 1, 5, 40])
+        for j, e in enumerate(scn["dirpack"]["entries"]):
+            e["values"]["name"] = {"a": list(b"entry-%04d-" % j + bytes([97 + j % 26]) * 1100)}
+            if "extra" in e["values"]:
+                e["values"]["extra"] = {"a": list(b"-> entry-%04d " % (j // 2) + bytes([65 + j % 26]) * 2500)}
         prev_scn = L.make_container(rng, 950 + k, n_entries=2, n_extras=nex, comp="none", concat=mode)
         prev_scn["out"] = scn["out"]
         for a, b in zip(prev_scn["extras"], scn["extras"]):
